@@ -318,15 +318,17 @@ func (quiet) Fatalf(string, ...any) {}
 func runScenario(sc scenario) string {
 	s := &server{sc: sc, booted: make(chan struct{}), opened: map[string]int{}, closed: map[string]int{}, loopOf: map[string]int64{},
 		remote: map[string]string{}, inCB: map[int64]int32{}}
+	base, baseTab := countFds(), fdTable()
 	// C19: a handle that was never started
 	probeEngine(s.log, "never", gnet.Engine{})
 	sockSeq++
-	addr := ""
+	addr, sockPath := "", ""
 	dial := func() (net.Conn, error) { return nil, nil }
 	switch sc.proto {
 	case "unix":
 		path := fmt.Sprintf("%s/gnetverif-eng-%d-%d.sock", os.TempDir(), os.Getpid(), sockSeq)
 		addr = "unix://" + path
+		sockPath = path
 		dial = func() (net.Conn, error) { return net.DialTimeout("unix", path, time.Second) }
 		defer os.Remove(path)
 	default:
@@ -490,6 +492,18 @@ func runScenario(sc scenario) string {
 		s.log("api", "down stop "+r)
 	}
 	// ---- oracles
+	// C07: descriptors the engine created are closed and the Unix-socket file is removed when Run returns
+	if !hammer && base > 0 && sc.source != "regrace" {
+		var now int
+		if !settle(2*time.Second, func() bool { now = countFds(); return now <= base }) {
+			util.Fail(fmt.Sprintf("C07: %d descriptors are open after Run returned and all peers closed, %d before the engine started (%s): leaked %s", now, base, sc.source, newFds(baseTab)))
+		}
+	}
+	if sockPath != "" {
+		if _, err := os.Stat(sockPath); err == nil {
+			util.Fail("C07: the Unix-socket file still exists after Run returned")
+		}
+	}
 	if runErr != nil {
 		util.Fail(fmt.Sprintf("C06: Run returned %v", runErr))
 	}
@@ -542,6 +556,9 @@ func runScenario(sc scenario) string {
 }
 
 func step(ws []string) string {
+	if ws[0] == "clife" {
+		return runClientLife(ws) + " @@="
+	}
 	if ws[0] != "life" {
 		return "bad-op"
 	}
@@ -574,6 +591,14 @@ func main() {
 			}
 			hist[src]++
 			fmt.Fprintf(&b, "case %d\nlife %s %d %d %d %d %s %d %d\n", i, []string{"unix", "tcp"}[r.Intn(2)], r.Pick(1, 2, 4), r.Intn(2), ticker, nconn, src, r.Intn(2), r.Intn(3))
+		}
+		// client lives
+		modes := []string{"stop", "peerclose", "localclose", "wake"}
+		for i := 0; i < *cases/2; i++ {
+			m := modes[i%len(modes)]
+			proto := []string{"tcp", "unix", "udp"}[r.Intn(3)]
+			hist["client-"+m]++
+			fmt.Fprintf(&b, "case %d\nclife %s %d %d %d %s %d\n", *cases+i, proto, r.Pick(1, 2, 4), r.Intn(2), r.Pick(0, 1, 2, 3, 5), m, r.Intn(2))
 		}
 		os.Stdout.WriteString(b.String())
 		fmt.Fprintf(os.Stderr, "DIST %v\n", hist)
